@@ -48,11 +48,12 @@ def generated_configs(n, seed):
             cfg["IDX"] = {"class": "IndexMarket", "tickSize": 0.01, "marketPrice": 305.0, "markets": list(names)}
             cfg["simulation"]["markets"].append("IDX")
             allm.append("IDX")
-            cfg["ARB"] = {"class": "ArbitrageAgent", "numAgents": 3, "markets": list(allm), "assetVolume": 50, "cashAmount": 150000,
+            cfg["ARB"] = {"class": "ArbitrageAgent", "numAgents": 3, "markets": list(allm), "assetVolume": [40, 60], "cashAmount": 150000,
                           "orderVolume": 1, "orderThresholdPrice": 1.0}
             cfg["simulation"]["agents"].append("ARB")
         cfg["F"] = {"class": rng.choice(["FCNAgent", "MarketShareFCNAgent"]), "numAgents": rng.randint(5, 25), "markets": list(allm),
-                    "assetVolume": 50, "cashAmount": 10000, "fundamentalWeight": {"expon": [1.0]}, "chartWeight": {"expon": [0.2]},
+                    "assetVolume": rng.choice([50, [10, 200], {"uniform": [20, 80]}]), "cashAmount": rng.choice([10000, {"uniform": [5000, 20000]}, {"normal": [10000, 500]}]),
+                    "fundamentalWeight": {"expon": [1.0]}, "chartWeight": {"expon": [0.2]},
                     "noiseWeight": {"expon": [1.0]}, "noiseScale": 0.001, "timeWindowSize": [10, 30], "orderMargin": [0.0, 0.1],
                     "marginType": rng.choice(["fixed", "normal"])}
         cfg["MM"] = {"class": "MarketMakerAgent", "numAgents": 1, "markets": [names[0]], "assetVolume": 50, "cashAmount": 10000,
